@@ -95,13 +95,14 @@ Fixpoint exec_a (g : getter) (c : cfg) (art : nat -> option (nat * nat)) (s : as
   end.
 
 (* ---- checker for observed runs (T2): the register history of a real run ----
-   ops: the manager calls of one run in the order observed: inl (name, artifact) = set_artifact_to_save, inr msg = set_error.
+   ops: manager calls in order: RSave / RDup name artifact = set_artifact_to_save (returned / raised), RErr msg = set_error.
    The observation: did the finally statement return, and which names does the session report afterwards. *)
-Inductive rop := RSave (n v : nat) | RErr (m : nat).
+Inductive rop := RSave (n v : nat) | RDup (n v : nat) | RErr (m : nat).   (* RDup: the real set_artifact_to_save raised ValueError *)
 Fixpoint run_ops (r : areg) (ops : list rop) : option areg :=
   match ops with
   | [] => Some r
   | RSave n v :: t => match set_artifact_to_save r n v with Some r' => run_ops r' t | None => None end
+  | RDup n v :: t => match set_artifact_to_save r n v with Some _ => None | None => run_ops r t end
   | RErr m :: t => run_ops (set_error r m) t
   end.
 Fixpoint arts_eqb (a b : arts) : bool :=
